@@ -64,7 +64,11 @@ def gen_source(rng):
         else:
             w = rng.choice(WARNINGS)
             pos = rng.randrange(len(lines) + 1)
-            lines.insert(pos, ".even\n" + (w[1](rng) if callable(w[1]) else w[1]))
+            wtxt = w[1](rng) if callable(w[1]) else w[1]
+            if rng.random() < 0.4 and "\n" not in wtxt and "'" not in wtxt and '"' not in wtxt:
+                # a comment behind the statement the warning points at (semicolons, tabs, non-ASCII in it)
+                wtxt += rng.choice([" ; note", "\t; a ; b ;; c", " ;", " ; комментарий ; ☃"])
+            lines.insert(pos, ".even\n" + wtxt)
             planted.append(("warning", w[0]))
     return "\n".join(lines) + "\n", planted
 
